@@ -76,6 +76,12 @@ impl Property for C09 {
         let session = to_text(&g.gen_session());
         let cut = cfg_rng.below(session.len() + 1);
         s1.extend(session[..cut].iter().cloned());
+        // some rules carry an explicit name, so that a later rule can collide with it
+        for (k, op) in s1.iter_mut().enumerate() {
+            if op.starts_with("(rule ") && !op.contains(":name") && cfg_rng.chance(1, 2) {
+                *op = format!("{} :name \"n{k}\")", &op[..op.len() - 1]);
+            }
+        }
         let mut frng = root.fork("faults");
         let bad: Vec<String> = match frng.weighted(&[8, 3, 1]) {
             0 => vec![faults::gen_f5(&mut g, &s1)],
